@@ -141,9 +141,15 @@ type Plan struct {
 	Crash   *CrashPlan `json:"crash,omitempty"`
 	// Sched, if set, perturbs goroutine interleaving at FS-operation granularity.
 	Sched *SchedPlan `json:"sched,omitempty"`
+	// Prov, if set, makes this a provider-level schedule exploration case
+	// (provsync.go); Opt and Steps are then unused.
+	Prov *ProvPlan `json:"prov,omitempty"`
 }
 
 func (p Plan) Summary() any {
+	if p.Prov != nil {
+		return map[string]any{"profile": p.Profile, "provider_plan": p.Prov.String()}
+	}
 	steps := make([]string, 0, len(p.Steps))
 	for i, s := range p.Steps {
 		if i >= 60 {
